@@ -36,8 +36,8 @@ decreasing_by
   all_goals first
     | omega
     | (have := Doc.sizes_le_sizesF ‹List Doc›; omega)
-    | (apply Nat.lt_of_le_of_lt (Nat.add_le_add_right (size_pick _ _ _ _) _); omega)
-    | (apply Nat.lt_of_le_of_lt (Nat.add_le_add_right (size_alignAt _ _) _); omega)
+    | (exact Nat.add_lt_add_right (size_pick _ _ _ _) _)
+    | (exact Nat.add_lt_add_right (size_alignAt _ _) _)
     | (apply Nat.lt_of_le_of_lt (Nat.add_le_add_right (Cfg.size_evC _ _ _ _) _); omega)
 
 namespace Pr
@@ -104,8 +104,8 @@ decreasing_by
   all_goals first
     | omega
     | (have := Doc.sizes_le_sizesF ‹List Doc›; omega)
-    | (apply Nat.lt_of_le_of_lt (Nat.add_le_add_right (size_pick _ _ _ _) _); omega)
-    | (apply Nat.lt_of_le_of_lt (Nat.add_le_add_right (size_alignAt _ _) _); omega)
+    | (exact Nat.add_lt_add_right (size_pick _ _ _ _) _)
+    | (exact Nat.add_lt_add_right (size_alignAt _ _) _)
     | (apply Nat.lt_of_le_of_lt (Nat.add_le_add_right (Cfg.size_evC _ _ _ _) _); omega)
 
 /-- the layout machine with its work: one unit per loop iteration plus, for every lookahead it starts, the size of
@@ -156,8 +156,63 @@ decreasing_by
   all_goals simp only [stkSize, Item.size, Doc.size, Doc.sizesF, stkSize_pushAll]
   all_goals first
     | omega
-    | (apply Nat.lt_of_le_of_lt (Nat.add_le_add_right (size_pick _ _ _ _) _); omega)
-    | (apply Nat.lt_of_le_of_lt (Nat.add_le_add_right (size_alignAt _ _) _); omega)
+    | (exact Nat.add_lt_add_right (size_pick _ _ _ _) _)
+    | (exact Nat.add_lt_add_right (size_alignAt _ _) _)
+    | (apply Nat.lt_of_le_of_lt (Nat.add_le_add_right (Cfg.size_evC _ _ _ _) _); omega)
+
+/-- iterations of the predicate handed to `best_layout` -/
+def fitsC (cfg : Cfg) (mn mw : Int) (stk : List Triple) : Bool × Nat :=
+  if cfg.smart then fitsSmartC cfg mn mw mw stk else fitsFastC cfg mw mw stk
+
+/-- the layout machine with the *actual* number of loop iterations it and its lookaheads perform -/
+def runC (cfg : Cfg) (stk : List Triple) (col : Int) : Nat :=
+  match stk with
+  | [] => 1
+  | (i, m, it) :: r =>
+    match it with
+    | .pop _ => 1 + runC cfg r col
+    | .doc d =>
+      match d with
+      | .nil => 1 + runC cfg r col
+      | .hardline => 1 + runC cfg r i
+      | .text s => 1 + runC cfg r (col + s.length)
+      | .cat ds => 1 + runC cfg (pushAll i m ds r) col
+      | .align d => 1 + runC cfg ((i, m, .doc (alignAt (col - i) d)) :: r) col
+      | .pstr sp => 1 + runC cfg ((i, m, .doc (cfg.evC sp i col)) :: r) col
+      | .ann a d => 1 + runC cfg ((i, m, .doc d) :: (i, m, .pop a) :: r) col
+      | .choice l b f => 1 + runC cfg ((i, m, .doc (pick m l b f)) :: r) col
+      | .nest j d => 1 + runC cfg ((i + j, m, .doc d) :: r) col
+      | .ab d => 1 + runC cfg ((i, .brk, .doc d) :: r) col
+      | .group d =>
+        let a := avail cfg.w cfg.rw col i
+        let fit := fitsC cfg (min col i) a ((i, .flat, .doc d) :: r)
+        1 + fit.2 + runC cfg ((i, modeOf fit.1, .doc d) :: r) col
+      | .fill ds =>
+        match ds with
+        | [] => 1 + runC cfg r col
+        | [x] =>
+          let a := avail cfg.w cfg.rw col i
+          let fit := fitsFastC cfg a a [(i, .flat, .doc x)]
+          1 + fit.2 + runC cfg ((i, modeOf fit.1, .doc x) :: r) col
+        | [x, ws] =>
+          let a := avail cfg.w cfg.rw col i
+          let fit := fitsFastC cfg a a [(i, .flat, .doc x)]
+          1 + fit.2 + runC cfg ((i, modeOf fit.1, .doc x) :: (i, modeOf fit.1, .doc ws) :: r) col
+        | x :: ws :: y :: rest =>
+          let a := avail cfg.w cfg.rw col i
+          let fit := fitsFastC cfg a a [(i, .flat, .doc x)]
+          let fit2 := fitsFastC cfg a a [(i, .flat, .doc (.cat [x, ws]))]
+          1 + fit.2 + fit2.2 +
+            runC cfg ((i, modeOf (fit2.1 || fit.1), .doc x) :: (i, modeOf fit2.1, .doc ws) ::
+                      (i, m, .doc (.fill (y :: rest))) :: r) col
+termination_by stkSize stk
+decreasing_by
+  all_goals simp_wf
+  all_goals simp only [stkSize, Item.size, Doc.size, Doc.sizesF, stkSize_pushAll]
+  all_goals first
+    | omega
+    | (exact Nat.add_lt_add_right (size_pick _ _ _ _) _)
+    | (exact Nat.add_lt_add_right (size_alignAt _ _) _)
     | (apply Nat.lt_of_le_of_lt (Nat.add_le_add_right (Cfg.size_evC _ _ _ _) _); omega)
 
 end PP
